@@ -125,3 +125,20 @@ Theorem C03_map_keys_merge_laws {V O E} (vo : valops V O E) (H : list (oprec (mo
     /\ kabs (mmerge vo s1 s2) = omerge (kabs s1) (kabs s2).
 Proof. exact (map_keys_merge_laws vo H). Qed.
 Print Assumptions C03_map_keys_merge_laws.
+
+(** Map<K, Orswot> whose keys are never removed: merging two replicas yields exactly the state of a replica that learned the
+    union of the ops behind them; ops and merges mix freely (proofs/MapOrswotNK.v) *)
+From Crdt Require Import model.Orswot model.Map spec.System spec.OrswotSpec spec.OrswotSystem spec.MapSpec spec.MapSystem spec.MapOrswotSpec proofs.MapOrswotNK proofs.MapOrswotNKCor.
+Theorem C03_mapor_nk_merge_spec (H : list (oprec (mop oop))) :
+  mohist_ok_nk H -> forall (s1 : cmap orswot) (K1 : gset nat) (s2 : cmap orswot) (K2 : gset nat),
+  moreach_nk H s1 K1 -> moreach_nk H s2 K2 ->
+  mmerge orswot_valops s1 s2 = mapor_spec_nk H (K1 ∪ K2).
+Proof. exact (mapor_merge_spec_nk H). Qed.
+Print Assumptions C03_mapor_nk_merge_spec.
+
+Theorem C03_mapor_nk_merge_is_union (H : list (oprec (mop oop))) :
+  mohist_ok_nk H -> forall (s1 : cmap orswot) (K1 : gset nat) (s2 : cmap orswot) (K2 : gset nat) (s : cmap orswot) (K : gset nat),
+  moreach_nk H s1 K1 -> moreach_nk H s2 K2 -> moreach_nk H s K -> K = K1 ∪ K2 ->
+  mmerge orswot_valops s1 s2 = s.
+Proof. exact (mapor_merge_is_union_nk H). Qed.
+Print Assumptions C03_mapor_nk_merge_is_union.
